@@ -5,8 +5,10 @@ Domain of the random stream (documented in docs/eblif.md):
   * every line starts with a keyword, a cover row, `#` + blank, or is blank; `\\` only as the last
     word of a .inputs/.outputs/.clock/.subckt/.gate/.names/.latch line; comment/blank lines never
     between the rows of a truth table;
-  * names are words over a printable-ASCII alphabet without `* ? = #` and without the substring
-    `unconn`; base names do not end in `_<digits>` or `]`; a net bit has at most one driver among
+  * names are words over a printable-ASCII alphabet without `* ? = #`, never the bare word `unconn`
+    (names that merely CONTAIN `unconn`, a keyword without its dot, or a `$false/$true/$undef`
+    look-alike are generated on purpose: they are ordinary names); base names do not end in
+    `_<digits>` or `]`; a net bit has at most one driver among
     .names/.latch outputs and OUT pins of declared black boxes; `.cname`s are distinct from every
     net name and from each other; bus ports of the top model list all their bits."""
 
@@ -34,7 +36,23 @@ def _fresh(rng, used, mk):
 
 def re_bad(w):
     import re
-    return bool(re.search(r"_\d+$", w)) or "unconn" in w or "_instance_" in w or w == "\\" or w.endswith("]")
+    return bool(re.search(r"_\d+$", w)) or w == "unconn" or "_instance_" in w or w == "\\" or w.endswith("]")
+
+
+KW_PLAIN = ["unconn", "unconn", "unconn", "unconn", "names", "subckt", "gate", "conn", "cname", "latch", "model", "end",
+            "inputs", "outputs", "blackbox", "attr", "param", "clock", "false", "true", "undef"]
+KW_DOLLAR = ["$false", "$true", "$undef", "$unconn"]
+
+
+def _kwname(rng, dollar=True):
+    """an ordinary name that looks like one of the reader's keywords: contains `unconn`, a statement
+    word without its dot, or a `$false/$true/$undef` look-alike, mostly with a prefix and/or suffix"""
+    kw = rng.choice(KW_PLAIN + (KW_DOLLAR if dollar else []))
+    pre = rng.choice(["", "", "x_", "my_", "lane_", "__vpr__", "n", "A"])
+    suf = rng.choice(["", "", "ected", "0", "3", "_q", "s", "_a", "X"])
+    if kw.startswith("$"):
+        pre = rng.choice(["", "", "a", "x_"])
+    return pre + kw + suf
 
 
 def gen_design(rng, size=None, hazards=()):
@@ -43,9 +61,13 @@ def gen_design(rng, size=None, hazards=()):
     size = size if size is not None else rng.choice([1, 2, 3, 4, 6, 9])
 
     def netname():
+        if rng.random() < 0.1:
+            return _fresh(rng, used, lambda: _kwname(rng))
         return _fresh(rng, used, lambda: _word(rng, "abcdnqrsxyz$", NET_CHARS, 0, 6))
 
     def ident(first="ABCDLMX"):
+        if rng.random() < 0.05:
+            return _fresh(rng, used, lambda: _kwname(rng, dollar=False))
         return _fresh(rng, used, lambda: _word(rng, first, ID_CHARS, 0, 5))
     top = ident("tmcde")
     # ---- black-box models
@@ -54,6 +76,8 @@ def gen_design(rng, size=None, hazards=()):
         pused = set()
 
         def pname():
+            if rng.random() < 0.05:
+                return _fresh(rng, pused, lambda: _kwname(rng, dollar=False))
             return _fresh(rng, pused, lambda: _word(rng, "ABCDIOQS", ID_CHARS, 0, 2))
         ins = [[pname(), rng.choice([1, 1, 1, 2, 3]) if rng.random() > 0.06 else rng.randint(11, 13)]
                for _ in range(rng.randint(0, 3))]
@@ -126,7 +150,10 @@ def gen_design(rng, size=None, hazards=()):
 
     def info(s):
         if rng.random() < 0.5:
-            s["cname"] = _fresh(rng, cused, lambda: _word(rng, "U", VAL_CHARS.replace("[", "").replace("]", ""), 1, 8))
+            if rng.random() < 0.06:
+                s["cname"] = _fresh(rng, cused, lambda: _kwname(rng))
+            else:
+                s["cname"] = _fresh(rng, cused, lambda: _word(rng, "U", VAL_CHARS.replace("[", "").replace("]", ""), 1, 8))
         kk = set()
         s["attrs"] = [[_fresh(rng, kk, lambda: _word(rng, "kKsrc", ID_CHARS, 0, 3)), _word(rng, VAL_CHARS, VAL_CHARS, 0, 6)]
                       for _ in range(rng.choice([0, 0, 1, 2]))]
@@ -469,7 +496,7 @@ def default_name_collision(design):
         elif k == "names":
             m = "logic-gate_%d" % (len(s["nets"]) - 1)
             o = s["nets"][-1]
-            if o is not None:
+            if o is not None and "unconn" not in o[0]:      # parse_names: "unconn" in <output net> -> provisional name
                 m = None
         else:
             m = None
